@@ -81,6 +81,14 @@ func obsScores3(w *W, level int, s string) (b, t, e float64, ok bool) {
 		w.Sample(map[string]string{"not_decoded": s, "kind": k.String(), "err": lib.ErrText(err)})
 		return 0, 0, 0, false
 	}
+	if Hash(s)%8 == 5 {
+		// object origin: persisted with encoding/json and restored into a zero struct (every metric field and
+		// embedded pointer is exported); the scores are those of the restored object
+		if c, ok := lib.JSONRoundTrip(o); ok {
+			o = c
+			w.Count("objects_restored_from_their_JSON_form")
+		}
+	}
 	bv, _, p1 := o.BaseView()
 	if p1 != nil || bv.IsNil() {
 		w.Count("base_view_unavailable")
